@@ -177,7 +177,7 @@ theorem mem_iff_abs (d : Dict) (h : WFd d) (nk : NKey) (v : Val) :
         exact ⟨k', List.mem_cons_of_mem _ hm, hn⟩
 
 theorem mem_set (d : Dict) (k : Key) (v : Val) (p : Key × Val) (h : p ∈ d.set k v) :
-    p ∈ d ∨ p.2 = v ∨ False := by
+    p ∈ d ∨ p.2 = v := by
   induction d with
   | nil => simp [set_nil] at h; simp [h]
   | cons q rest ih =>
@@ -186,7 +186,7 @@ theorem mem_set (d : Dict) (k : Key) (v : Val) (p : Key × Val) (h : p ∈ d.set
     by_cases hk : k'.norm = k.norm
     · simp only [hk, if_true] at h
       rcases List.mem_cons.mp h with e | hm
-      · right; left; rw [e]
+      · right; rw [e]
       · left; exact List.mem_cons_of_mem _ hm
     · simp only [hk, if_false] at h
       rcases List.mem_cons.mp h with e | hm
@@ -204,10 +204,9 @@ theorem vals_fold (P : Val → Prop) (ps : List (Key × Val)) (d0 : Dict)
     simp only [List.foldl_cons]
     apply ih
     · intro p hm
-      rcases mem_set d0 q.1 q.2 p hm with h1 | h1 | h1
+      rcases mem_set d0 q.1 q.2 p hm with h1 | h1
       · exact h0 p h1
       · rw [h1]; exact hp q List.mem_cons_self
-      · exact h1.elim
     · intro p hm
       exact hp p (List.mem_cons_of_mem _ hm)
 
@@ -548,10 +547,9 @@ theorem inv_step (s : State) (h : Inv s) (op : Op) : Inv (step s op).1 := by
           exact this.1
         apply inv_update s h r _ (WFd_set dict k v (h.heapWF dict hm))
         · intro p hp
-          rcases mem_set dict k v p hp with h1 | h1 | h1
+          rcases mem_set dict k v p hp with h1 | h1
           · exact h.heapOK dict hm p h1
           · rw [h1]; exact resolve_ok s h a v hv
-          · exact h1.elim
         · exact bindOpt_ok _ _ into _ h.varsOK hlt
   | remove d k into =>
     simp only [step]
